@@ -250,7 +250,7 @@ PROPS["C11"] = {
 PROPS["C06"] = {
     "lean_modules": ["StyluaModel.Props.C06"],
     "theorem_prefix": "C06_",
-    "required_theorems": ["C06_strlit", "C06_number", "C06_semicolon", "C06_sort", "C06_comment_text", "C06_paren_idem", "C06_paren_idem_faithful", "C06_paren_not_idempotent", "C06_table_multi_stable", "C06_table_single_stable", "C06_table_growth_witness", "C06_trivia", "C06_trivia_trailing"],
+    "required_theorems": ["C06_strlit", "C06_number", "C06_semicolon", "C06_sort", "C06_comment_text", "C06_paren_idem", "C06_paren_idem_faithful", "C06_paren_not_idempotent", "C06_table_multi_stable", "C06_table_single_stable", "C06_table_growth_witness", "C06_trivia", "C06_trivia_trailing", "C06_end_token_scan"],
     "hx": [["pipe"], ["slots"], ["c05"], ["c06t"], ["c08"]],
     "level": "proof",
     "level_text": "Proof, partial — the property the technique serves least: idempotence theorems for every decision mechanism that has a model (string and number rewriting, semicolon decisions, sorted require groups, comment text, the leading-trivia loader applied to its own re-tokenised output: blank-line runs, comment lines), and a proven counterexample for the parenthesis rule (`(- -f())`, found by evaluating the model). Whether the second pass takes the same layout path as the first is a fact about Shape arithmetic and ~40 heuristics that are not modelled: it is checked on the closed sets only (corpus x 79 configurations, width sweep 1..130 of catalogue one-liners, comment-slot enumeration), whose unchanged-tree failures are listed exactly.",
